@@ -1,3 +1,5 @@
+//go:build all || c05
+
 package scen
 
 import (
